@@ -479,6 +479,18 @@ Definition lazy_apply (con : bool) (members : list tree) (others : list (list tr
     else if existsb is_none rets then Raised ERuntime      (* the stack cannot be rebuilt from a mix of None and results *)
     else Ok (LStack (flat_map (fun r => match r with Some t => [t] | None => [] end) rets))).
 
+(* the front-ends on a lazy stack: result.lock_() locks every member *)
+Definition lazy_front (con propagate : bool) (members : list tree) (others : list (list tree)) (out : option (list tree))
+           (names : option dnames) (lazy_bs : option (list nat)) : res lazy_ret :=
+  bind (lazy_apply con members others out names lazy_bs) (fun r =>
+  Ok (match r with
+      | LStack l =>
+          if propagate && negb (o_inplace o)
+             && forallb (fun m => match m with Node _ mm _ => m_lock mm | _ => false end) members
+          then LStack (map t_lock l) else r
+      | LNone => LNone
+      end)).
+
 End Trees.
 
 Arguments Leaf {A} s v.
